@@ -45,6 +45,19 @@ func TestLinesThroughParser(t *testing.T) {
 		if rapid.Bool().Draw(t, "trailing-newline") {
 			datagram += "\n"
 		}
+		// rarely: the datagram is as large as a datagram gets - exactly the receive buffer (65535 bytes, what a unix datagram
+		// socket can deliver), one byte less, or the largest UDP payload - the drawn lines being its last ones
+		if rapid.IntRange(0, 19).Draw(t, "full-size-datagram") == 0 {
+			target := rapid.SampledFrom([]int{65535, 65535, 65534, 65507}).Draw(t, "datagram-bytes")
+			if f := target - len(datagram); f >= 6 {
+				filler := []string{"p" + strings.Repeat("x", f%6) + ":1|c"}
+				for i := 1; i < f/6; i++ {
+					filler = append(filler, "p:1|c")
+				}
+				lines = append(filler, lines...)
+				datagram = strings.Join(filler, "\n") + "\n" + datagram
+			}
+		}
 		r := rig.NewParser(ns, false, 0, nil)
 		defer r.Cancel()
 		if p := r.Feed([]*statsd.Datagram{{IP: "1.2.3.4", Msg: []byte(datagram), Timestamp: 5, DoneFunc: func() {}}}); p != "" {
@@ -94,7 +107,7 @@ func TestLinesThroughParser(t *testing.T) {
 		if b != bad {
 			vt.Fail(t, "C02:line-bytes", "datagram %q: parser counted %v bad lines, lexing each line as it is rejects %v", datagram, b, bad)
 		}
-		ev.C().Case("P|"+ns+"|"+datagram, crEnd, "through-parser", fmt.Sprintf("lines=%d", k))
+		ev.C().Case("P|"+ns+"|"+datagram, crEnd, "through-parser", fmt.Sprintf("lines=%d", min(k, 7)), fmt.Sprintf("full-size=%v", len(datagram) >= 65507))
 		if ev.C().WantSample() {
 			ev.C().Sample(map[string]interface{}{"datagram": datagram, "bad_lines": bad, "events": len(wantEvents)})
 		}
